@@ -55,8 +55,17 @@ def para2value : List String → Para → Except Err Value
 def values2positions (dims : List (List Rat)) (vs : List Value) : Except Err (List (List Nat)) :=
   vs.mapM (value2position dims)
 
-/-- the form at the pinned commit: `space_dim.searchsorted(values_1d)` = leftmost insertion index of an ascending array -/
-def searchsortedLeft (d : List Rat) (v : Rat) : Nat := (d.takeWhile (fun x => x < v)).length
+/-- the form at the pinned commit: `space_dim.searchsorted(values_1d)` = numpy's left bisection (correct only on an
+    ascending array) -/
+def bisectLeft (d : List Rat) (v : Rat) : Nat → Nat → Nat → Nat
+  | 0, lo, _ => lo
+  | fuel + 1, lo, hi =>
+    if lo < hi then
+      let mid := lo + (hi - lo) / 2
+      if d.getD mid 0 < v then bisectLeft d v fuel (mid + 1) hi else bisectLeft d v fuel lo mid
+    else lo
+
+def searchsortedLeft (d : List Rat) (v : Rat) : Nat := bisectLeft d v (d.length + 1) 0 d.length
 
 def values2positionsLegacy (dims : List (List Rat)) (vs : List Value) : List (List Nat) :=
   vs.map (fun v => (dims.zip v).map (fun dv => searchsortedLeft dv.1 dv.2))
